@@ -117,7 +117,9 @@ def explore(prop, strategy, run_case, n, seed, stats, shrink=True, budget_s=None
                 return failing[d][0]
             if time.time() - last['t'] > shrink_budget_s:
                 return None
-        res = run_case(case)
+        res = _guarded(run_case, case, stats)
+        if res is None:
+            return None
         if 'fail' not in last:
             stats.record(case, res)
         if res.violation is not None:
@@ -158,6 +160,36 @@ def explore(prop, strategy, run_case, n, seed, stats, shrink=True, budget_s=None
             if name in ('Unsatisfiable',):
                 raise HarnessError('generator unsatisfiable: %r' % (e,))
             raise
+
+
+class _CaseTimeout(BaseException):
+    pass
+
+
+CASE_TIMEOUT_S = int(os.environ.get('VERIF_CASE_TIMEOUT', '180'))
+
+
+def _guarded(run_case, case, stats):
+    """Run one case under a generous wall-clock watchdog. A case that does not finish is
+    *inconclusive* (wall clock is never a verdict): it is skipped and counted."""
+    import signal
+
+    def onalarm(signum, frame):
+        raise _CaseTimeout()
+    try:
+        old = signal.signal(signal.SIGALRM, onalarm)
+    except ValueError:
+        return run_case(case)
+    signal.alarm(CASE_TIMEOUT_S)
+    try:
+        return run_case(case)
+    except _CaseTimeout:
+        stats.inconclusive.append('a case did not finish within %d s and was skipped (digest %s)' % (CASE_TIMEOUT_S, digest(case)))
+        stats.extra['cases_skipped_by_watchdog'] += 1
+        return None
+    finally:
+        signal.alarm(0)
+        signal.signal(signal.SIGALRM, old)
 
 
 def _shard_entry(args):
